@@ -301,6 +301,23 @@ func c01Enqueue(r *core.Run, a *svcAnchors, e *lockEngine) {
 		}
 	}
 	if lookup == nil {
+		// the steps of the critical section may be spread over private helpers (look up, create,
+		// register): judge the unit as a whole
+		for _, h := range p.Helpers(fn) {
+			if h == fn {
+				continue
+			}
+			for _, b := range h.Blocks {
+				for _, in := range b.Instrs {
+					if lk, ok := in.(*ssa.Lookup); ok {
+						if f, ok := core.LoadedField(lk.X); ok && f == a.RWork {
+							c01EnqueueUnit(r, a, e, gparam)
+							return
+						}
+					}
+				}
+			}
+		}
 		r.Bad("A2", fname, "lookup("+a.RWork.String()+")", p.Pos(fn.Pos()), "enqueue does not look the group up in the registry: the create-vs-append decision cannot depend on a pending work item")
 		return
 	}
@@ -629,7 +646,7 @@ func c01Pop(r *core.Run, a *svcAnchors, e *lockEngine) {
 		read0    = 2
 		dropped  = 3
 	)
-	fl := &core.Flow{Fn: fn, Entry: core.StateSet(0).Add(unk), Inline: inlineHelpers(a, a.Drain)}
+	fl := &core.Flow{Fn: fn, Entry: core.StateSet(0).Add(unk), Inline: inlineHelpers(a, a.Drain), Tags: true}
 	fl.Transfer = func(in ssa.Instruction, s int) core.StateSet {
 		if e.isRelease(in) {
 			if c, ok := in.(*ssa.Call); ok {
@@ -1163,6 +1180,46 @@ func classifyGroupArg(arg ssa.Value, c ssa.CallInstruction, a *svcAnchors, match
 	if f, ok := core.LoadedField(arg); ok && f == matchGroup {
 		return "Match.Group", true
 	}
+	// (match, group) computed by a private helper: on its matched returns Match.Group, on the
+	// others the name it looked up
+	if ex, ok := arg.(*ssa.Extract); ok {
+		if hc, ok := ex.Tuple.(*ssa.Call); ok {
+			cal := hc.Common().StaticCallee()
+			if cal != nil && len(cal.Blocks) > 0 && cal.Pkg == c.Parent().Pkg {
+				var getArg ssa.Value
+				for _, cc := range core.Calls(cal) {
+					if g := cc.Common().StaticCallee(); g != nil && g.Name() == "GetHandler" {
+						getArg = cc.Common().Args[1]
+					}
+				}
+				hasMG, hasName, other := false, false, false
+				for _, ret := range core.Returns(cal) {
+					if ex.Index >= len(ret.Results) {
+						continue
+					}
+					for _, src := range phiSources(ret.Results[ex.Index]) {
+						if f, ok := core.LoadedField(src.V); ok && f == matchGroup {
+							for _, dc := range srcEdges(ret, src) {
+								if strings.HasSuffix(describeCond(dc), "!=nil") {
+									hasMG = true
+								}
+							}
+							continue
+						}
+						if getArg != nil && (src.V == getArg || sameCellLoad(src.V, getArg)) {
+							hasName = true
+							continue
+						}
+						other = true
+					}
+				}
+				if hasMG && hasName && !other {
+					return "helper(Match.Group when matched, else the resource name)", true
+				}
+				return fmt.Sprintf("helper %s (matchGroup=%v,name=%v,other=%v)", core.FuncName(cal), hasMG, hasName, other), false
+			}
+		}
+	}
 	return valDesc(arg), false
 }
 
@@ -1257,5 +1314,268 @@ func inlineHelpers(a *svcAnchors, except ...*ssa.Function) func(*ssa.Function) b
 			}
 		}
 		return cal.Pkg == a.Enqueue.Pkg
+	}
+}
+
+// c01EnqueueUnit is rule A2 for an enqueue whose critical section is spread
+// over private helpers: the same obligations (lookup keyed by the group; append
+// to the looked-up item on the found edge inside the lookup's critical section;
+// a new item pushed on the not-found edge and, for a non-empty group, registered
+// in that critical section; the pushed item is the fresh, registered one),
+// with values followed through helper parameters and results and the typestate
+// run over the unit with the helpers analysed in place.
+func c01EnqueueUnit(r *core.Run, a *svcAnchors, e *lockEngine, gparam *ssa.Parameter) {
+	p := r.P
+	fn := a.Enqueue
+	fname := core.FuncName(fn)
+	unit := p.Helpers(fn)
+	inUnit := map[*ssa.Function]bool{}
+	for _, h := range unit {
+		inUnit[h] = true
+	}
+	// isGroup: v is the group id: the group parameter (through helper parameters) or the id field
+	// of a work item (which is set from the group parameter where the item is created: checked below)
+	var isGroup func(v ssa.Value, d int) bool
+	isGroup = func(v ssa.Value, d int) bool {
+		v = core.Strip(v)
+		if v == ssa.Value(gparam) {
+			return true
+		}
+		if f, ok := core.LoadedField(v); ok && f == a.WID {
+			return true
+		}
+		if prm, ok := v.(*ssa.Parameter); ok && d < 4 && inUnit[prm.Parent()] && prm.Parent() != fn {
+			// one level up: what the unit's call sites of this helper pass
+			idx := -1
+			for i, q := range prm.Parent().Params {
+				if q == prm {
+					idx = i
+				}
+			}
+			n := 0
+			for _, cs := range p.CallersOf(prm.Parent()) {
+				if idx < 0 || idx >= len(cs.Common().Args) || !inUnit[core.Outermost(cs.Parent())] {
+					return false
+				}
+				n++
+				if !isGroup(cs.Common().Args[idx], d+1) {
+					return false
+				}
+			}
+			return n > 0
+		}
+		return false
+	}
+	// upTo resolves a helper parameter to the values the unit's call sites pass (one or more levels)
+	var upTo func(v ssa.Value, d int) []ssa.Value
+	upTo = func(v ssa.Value, d int) []ssa.Value {
+		v = core.Strip(v)
+		prm, ok := v.(*ssa.Parameter)
+		if !ok || d > 4 || !inUnit[prm.Parent()] || prm.Parent() == fn {
+			return []ssa.Value{v}
+		}
+		idx := -1
+		for i, q := range prm.Parent().Params {
+			if q == prm {
+				idx = i
+			}
+		}
+		var out []ssa.Value
+		for _, cs := range p.CallersOf(prm.Parent()) {
+			if idx >= 0 && idx < len(cs.Common().Args) {
+				out = append(out, upTo(cs.Common().Args[idx], d+1)...)
+			}
+		}
+		if len(out) == 0 {
+			return []ssa.Value{v}
+		}
+		return out
+	}
+	// the item's id field is written from the group only
+	for _, ac := range core.FieldAccesses(unit, func(f core.Field) bool { return f == a.WID }) {
+		if ac.Kind == "store" {
+			st := ac.Instr.(*ssa.Store)
+			r.Check(isGroup(st.Val, 0) && !func() bool { f, ok := core.LoadedField(core.Strip(st.Val)); return ok && f == a.WID }(), "A2", fname, "item-id<-group-param", p.InstrPos(st), "a new work item's id is the group it was submitted for", "the work item's id is written from "+valDesc(st.Val)+", not from the group parameter")
+		}
+	}
+	var lookup *ssa.Lookup
+	nLook := 0
+	for _, h := range unit {
+		for _, b := range h.Blocks {
+			for _, in := range b.Instrs {
+				if lk, ok := in.(*ssa.Lookup); ok {
+					if f, ok := core.LoadedField(lk.X); ok && f == a.RWork {
+						lookup = lk
+						nLook++
+					}
+				}
+			}
+		}
+	}
+	r.Check(nLook == 1 && lookup.CommaOk && isGroup(lookup.Index, 0), "A2", fname, "lookup-keyed-by-group-param", posOf(p, lookup), "one lookup, keyed by the group", "the registry lookup is not a single comma-ok lookup keyed by the group parameter")
+	if lookup == nil {
+		return
+	}
+	const (
+		bLooked = 1
+		bReg    = 2
+		bGYes   = 4
+		bGNo    = 8
+	)
+	fl := &core.Flow{Fn: fn, Entry: core.StateSet(0).Add(0), Tags: true, Inline: func(cal *ssa.Function) bool { return inUnit[cal] && cal != fn }}
+	fl.Transfer = func(in ssa.Instruction, s int) core.StateSet {
+		if e.isRelease(in) {
+			if c, ok := in.(*ssa.Call); ok {
+				if cal := c.Common().StaticCallee(); cal != nil && inUnit[cal] && e.lockOp(c) == "" {
+					return core.StateSet(0).Add(s) // analysed in place
+				}
+			}
+			return core.StateSet(0).Add(s &^ (bLooked | bReg))
+		}
+		switch x := in.(type) {
+		case *ssa.Call:
+			if e.lockOp(x) == "lock" {
+				return core.StateSet(0).Add(s &^ (bLooked | bReg))
+			}
+		case *ssa.Lookup:
+			if x == lookup {
+				return core.StateSet(0).Add((s | bLooked) &^ bReg)
+			}
+		case *ssa.MapUpdate:
+			if f, ok := core.LoadedField(x.Map); ok && f == a.RWork && isGroup(x.Key, 0) {
+				return core.StateSet(0).Add(s | bReg)
+			}
+		}
+		return core.StateSet(0).Add(s)
+	}
+	fl.BranchOn = func(cond ssa.Value, succ int, s int) (int, bool) {
+		ci := core.Cond(cond)
+		if ci.Kind == "constcmp" && ci.Const != nil && ci.Const.ExactString() == `""` && (ci.Op == token.EQL || ci.Op == token.NEQ) && isGroup(ci.X, 0) {
+			neOnTrue := ci.Op == token.NEQ
+			if ci.Negate {
+				neOnTrue = !neOnTrue
+			}
+			if (succ == 0) == neOnTrue {
+				if s&bGNo != 0 {
+					return s, false
+				}
+				return s | bGYes, true
+			}
+			if s&bGYes != 0 {
+				return s, false
+			}
+			return s | bGNo, true
+		}
+		return s, true
+	}
+	fl.Branch = func(iff *ssa.If, succ int, s int) (int, bool) { return fl.BranchOn(iff.Cond, succ, s) }
+	res := fl.Run()
+	// found edge: a condition whose sources include the lookup's presence flag
+	foundEdge := func(in ssa.Instruction) (found, onTrue bool) {
+		for _, ed := range ctxEdges(p, in, fn, 0) {
+			cnd, succ := ed.Norm()
+			for _, lf := range valueLeaves(cnd, nil, 0) {
+				if ex, ok := core.Strip(lf.V).(*ssa.Extract); ok && ex.Tuple == ssa.Value(lookup) && ex.Index == 1 {
+					return true, succ == 0
+				}
+			}
+		}
+		return false, false
+	}
+	fromLookup := func(v ssa.Value) bool {
+		for _, x := range upTo(v, 0) {
+			for _, lf := range valueLeaves(x, nil, 0) {
+				if ex, ok := core.Strip(lf.V).(*ssa.Extract); ok && ex.Tuple == ssa.Value(lookup) && ex.Index == 0 {
+					return true
+				}
+			}
+		}
+		return false
+	}
+	nAppend, nPush := 0, 0
+	for _, h := range unit {
+		for _, b := range h.Blocks {
+			for _, in := range b.Instrs {
+				st, ok := in.(*ssa.Store)
+				if !ok {
+					continue
+				}
+				f, ok := core.FieldOf(st.Addr)
+				if !ok {
+					continue
+				}
+				call, isAppend := st.Val.(*ssa.Call)
+				if isAppend && core.CalleeName(call) != "builtin:append" {
+					isAppend = false
+				}
+				switch {
+				case f == a.WQueue && !freshBase(st.Addr, st):
+					nAppend++
+					s := res.Before[st]
+					allLooked := !s.Empty()
+					for _, x := range s.List() {
+						if x&bLooked == 0 {
+							allLooked = false
+						}
+					}
+					found, onTrue := foundEdge(st)
+					base := st.Addr.(*ssa.FieldAddr).X
+					r.Check(allLooked && fromLookup(base) && found && onTrue && isAppend, "A2", fname, "append-to-existing-item", p.InstrPos(st),
+						"callback appended to the looked-up item in the lookup's critical section, on the found edge",
+						fmt.Sprintf("append to a pending item is not tied to the lookup: looked=%v itemFromLookup=%v onFoundEdge=%v append=%v", allLooked, fromLookup(base), found && onTrue, isAppend))
+					if isAppend {
+						lf, ok := core.LoadedField(call.Call.Args[0])
+						r.Check(ok && lf == a.WQueue, "A2", fname, "append-extends-same-queue", p.InstrPos(st), "append(load "+a.WQueue.String()+", cb)", "the stored slice is not an extension of the item's own queue")
+					}
+				case f == a.WorkQueue && isAppend:
+					nPush++
+					s := res.Before[st]
+					good := !s.Empty()
+					for _, x := range s.List() {
+						switch {
+						case x&bGNo != 0:
+						case x&bLooked != 0 && x&bReg != 0:
+						default:
+							good = false
+						}
+					}
+					found, onTrue := foundEdge(st)
+					r.Check(good && found && !onTrue, "A2", fname, "register-before-push", p.InstrPos(st),
+						"new item pushed on the not-found edge; for a non-empty group id it was registered after the lookup in the same critical section",
+						fmt.Sprintf("a new work item can be pushed for a group without being registered in the lookup's critical section (states=%v, onNotFoundEdge=%v): two workers could run the same group", s.List(), found && !onTrue))
+					var pushed ssa.Value
+					if len(call.Call.Args) == 2 {
+						pushed = elemOfVarargs(call.Call.Args[1])
+					}
+					isNew := pushed != nil
+					if pushed != nil {
+						for _, x := range upTo(pushed, 0) {
+							if !isFreshObject(core.Strip(x), 0) {
+								isNew = false
+							}
+						}
+					}
+					sameAsReg := true
+					for _, h2 := range unit {
+						for _, bb := range h2.Blocks {
+							for _, i2 := range bb.Instrs {
+								if mu, ok := i2.(*ssa.MapUpdate); ok {
+									if mf, ok := core.LoadedField(mu.Map); ok && mf == a.RWork && mu.Value != pushed {
+										sameAsReg = false
+									}
+								}
+							}
+						}
+					}
+					r.Check(isNew && sameAsReg, "A2", fname, "pushed-item-is-the-registered-new-item", p.InstrPos(st), "pushed value is the freshly allocated item that was registered", "pushed value and registered value differ or the pushed item is not fresh")
+				}
+			}
+		}
+	}
+	if nAppend == 0 {
+		r.Bad("A2", fname, "append-to-existing-item", p.Pos(fn.Pos()), "no path appends the callback to a pending item of the group")
+	}
+	if nPush == 0 {
+		r.Bad("A2", fname, "register-before-push", p.Pos(fn.Pos()), "no push of a new work item")
 	}
 }
